@@ -469,6 +469,17 @@ class G:
                 return c
         if k == 19:
             return ["seq", [self.S(cx.sub()) for _ in range(self.i(0, 3))]]
+        if k in (21, 22):
+            # optimiser trigger: a store immediately followed by a load of the same variable
+            t = self.pick(["U", "U", "B"])
+            vs = self.vars_of(t, cx)
+            v = self.pick(vs) if vs and self.chance(5) else self.new_var(t, cx, plain=True)
+            val = self.U(o) if t == "U" else self.B(o)
+            use = ["load", v]
+            if t == "U":
+                use = self.pick([use, ["nary", "Add", [use, ["int", self.i(0, 3)]]], ["bin", "Eq", use, self.U(o)]])
+                return ["seq", [["store", v, val], self.observe(cx, use)]]
+            return ["seq", [["store", v, val], ["pop", ["un", "Len", use]] if not (self.mode == "app" and L >= 5) else ["log", use]]]
         if k == 20 and self.mode == "app" and L >= 8 and self.chance(5):
             return ["boxput", ["bytes", self.pick(["6278", "6279"])], ["bytes", bytes(self.draw(st.binary(min_size=4, max_size=4))).hex()]]
         return self.S_leaf(cx)
